@@ -7,5 +7,7 @@ p = Program('/repo', normalise=False)
 names = sorted(q for q, f in p.functions.items() if f.parent is None)
 # module level names as well: a literal moved to a NEW module constant is read as the literal (inline.normalise_module_constants)
 names = sorted(set(names) | {f"{m.name}.{k}" for m in p.modules.values() for k in m.assigns})
+# ... and class level names: a literal moved to a NEW class attribute likewise (inline.normalise_class_constants)
+names = sorted(set(names) | {f"{c.qualname}.{k}" for c in p.classes.values() for k in list(c.attrs) + list(c.annotations)})
 (Path(__file__).resolve().parent.parent / 'emsverif' / 'reference_functions.json').write_text(json.dumps(names, indent=0) + '\n')
 print(len(names), 'functions recorded')
